@@ -23,7 +23,10 @@ META = {
                    "against the model; bus transcript and final unit state compared by unsat queries",
     "bounds": ["tc -1..65537 symbolic", "destinations: short / group / broadcast / plain int, symbolic numbers",
                "all 83 query selectors + non-members", "stored value 0..65535 symbolic",
-               "faults: silence or framing error on the MSB or LSB answer", "limit selectors 0..3"],
+               "faults: silence or framing error on the MSB or LSB answer", "limit selectors 0..3",
+               "the unit's answer to the opening QUERY ACTUAL LEVEL is any level 0..255 (symbolic)",
+               "two runs in one process against independent units with independent stale DTRs: set/set, "
+               "limit/limit, limit/set"],
     "stubs": ["isinstance/int shims", "SymInt.to_bytes / int.from_bytes models"],
     "outside": ["units that do not conform to 209", "limit selectors outside the enum (the property does not "
                 "require their rejection)"],
